@@ -4,7 +4,7 @@
 
 use crate::runner::{Property, Report, Tier};
 use crate::sim::{self, Ev, Log, Outcome, Req, Sim, TaskState};
-use crate::svc::{Resp, SErr, Scripted, Step};
+use crate::svc::{Lat, Out, Resp, SErr, Scripted, Step};
 use proptest::prelude::*;
 use serde::{Deserialize, Serialize};
 use serde_json::json;
@@ -58,7 +58,7 @@ fn case_strategy(tier: Tier) -> BoxedStrategy<CacheCase> {
         0u8..3,
         2u32..=7,
         prop::collection::vec(op, 0..=max_ops),
-        0u8..16,
+        0u8..32,
     )
         .prop_map(|(policy, max_size, ttl, mode, nkeys, ops, setter_order)| CacheCase {
             policy,
@@ -285,12 +285,13 @@ async fn interp(case: &CacheCase) -> Verdict {
     let log = Log::new();
     let mut sim = Sim::new(log.clone(), vec![]);
     // script from the request tag: bit 0 = ok, bits 8.. = latency
-    let inner = Scripted::new(log.clone(), 1, |req, _, _| {
+    // setter_order bit 4: inner calls use up the cooperative budget in the poll they complete in
+    let drain = case.setter_order & 16 != 0;
+    let inner = Scripted::new(log.clone(), 1, move |req, _, _| {
         let lat = req.tag >> 8;
-        if req.tag & 1 == 1 {
-            Step::ok(lat)
-        } else {
-            Step::err(lat, 6)
+        Step {
+            lat: if drain { Lat::MsDrain(lat) } else { Lat::Ms(lat) },
+            out: if req.tag & 1 == 1 { Out::Ok } else { Out::Err(6) },
         }
     });
     let policy = match case.policy {
